@@ -1,6 +1,6 @@
 SPECIFICATION FairSpec
 CONSTANTS
-  N = 3
+  N = 2
   NoNode = 0
   Spurious = FALSE
   EarlyQuit = TRUE
@@ -8,7 +8,7 @@ CONSTANTS
   Mutant = "none"
   MaxNodes = 4
   WithQuit = TRUE
-  WithErr = FALSE
-  WithSkip = FALSE
+  WithErr = TRUE
+  WithSkip = TRUE
 INVARIANT Safety
 PROPERTY Term
